@@ -171,6 +171,10 @@ package wasp
 // C11: Process reports an error (which ends the session) only for the causes the protocol allows
 //@   ensures [C11] typeis(pkt, *packet.Connect) ==> err != nil
 //@   ensures [C11] typeis(pkt, *packet.Disconnect) ==> err != nil
+// C11 ("ending a session removes every trace of it"): teardown unsubscribes the filters of the session's own list, so a filter
+// that was entered into the subscription index is in that list whenever Process returns -- also when it returns early because
+// the SUBACK could not be written or the retained lookup failed
+//@   ensures [C11] typeis(pkt, *packet.Subscribe) && #subCreates > old(#subCreates) && #lastSubOk ==> topic_in(session, string(#lastSubPattern))
 
 // C02 ("... and across message-log segment rolls and truncation"): the log consumer schedules offsets into the writer's queue and
 // the writer reads each record back from the log by its offset; truncation stays 300 records behind the consumer
@@ -196,9 +200,11 @@ package wasp
 //@   invariant forall j int :: {topics[j]} 0 <= j && j <= rangeindex ==> pfx_of(topics[j], j)
 //@ loop (*packetProcessor).Process#2
 //@   invariant -1 <= rangeindex && rangeindex < len(topics) && len(topics) == len(p.Topic) && topics_nodup(session) && fresh(topics) && base(session.topics) != base(topics)
+//@   invariant [C11] #subCreates > old(#subCreates) && #lastSubOk ==> topic_in(session, string(#lastSubPattern))
 //@   invariant forall j int :: {topics[j]} 0 <= j && j < len(topics) ==> pfx_of(topics[j], j)
 //@ loop (*packetProcessor).Process#3
 //@   invariant -1 <= rangeindex && rangeindex < len(topics) && len(topics) == len(p.Topic) && topics_nodup(session) && fresh(topics) && base(session.topics) != base(topics)
+//@   invariant [C11] #subCreates > old(#subCreates) && #lastSubOk ==> topic_in(session, string(#lastSubPattern))
 //@   invariant forall j int :: {topics[j]} 0 <= j && j < len(topics) ==> pfx_of(topics[j], j)
 //@ callsite (*packetProcessor).Process -> (distributed.SubscriptionsState).Create(st distributed.SubscriptionsState, sessionID string, pattern []byte, qos int32)
 //@   requires [C17] sessionID == session.id && pfx_of(pattern, idx) && qos == p.Qos[idx]
@@ -212,6 +218,7 @@ package wasp
 //@   requires [C17] sess == session && pfx_of(t, idx)
 //@ loop (*packetProcessor).Process#4
 //@   invariant -1 <= rangeindex && rangeindex < len(messages) && topics_nodup(session) && len(topics) == len(p.Topic) && fresh(topics) && base(session.topics) != base(topics)
+//@   invariant [C11] #subCreates > old(#subCreates) && #lastSubOk ==> topic_in(session, string(#lastSubPattern))
 //@   invariant forall j int :: {topics[j]} 0 <= j && j < len(topics) ==> pfx_of(topics[j], j)
 //@ loop (*packetProcessor).Process#5
 //@   invariant -1 <= rangeindex && rangeindex < len(p.Topic) && len(topics) == len(p.Topic)
